@@ -469,6 +469,36 @@ def extract_reader(repo):
     return info
 
 
+EXPORT_RS = 'pipeline/src/pipeline/api/export.rs'
+
+
+def extract_export_write(repo):
+    """how `cmd_export` writes the document: the model (ExportFile.lean) transcribes `fs::write(path, export_output)` for --file and
+    `output!(.., "{}", export_output)` for stdout, both fed from ONE string built by serde_json::to_string_pretty / to_yaml"""
+    p = os.path.join(repo, EXPORT_RS)
+    try:
+        src = open(p, encoding='utf-8').read()
+    except OSError as e:
+        raise ReaderTieBroken(f'cannot read {EXPORT_RS}: {e}')
+    code = re.sub(r'//[^\n]*', '', src)
+    norm = re.sub(r'\s+', ' ', code)
+    a = norm.find('let export_output = match output_format {')
+    if a < 0:
+        raise ReaderTieBroken(f'{EXPORT_RS}: `let export_output = match output_format {{..}}` not found: the document is no longer built as one string before it is written '
+                              '(ExportFile.lean transcribes `fs::write(path, export_output)`)')
+    tail = norm[a:]
+    want = ('let export_output = match output_format { XvcSchemaSerializationFormat::Json => { let value = to_json(&pipeline_schema)?; serde_json::to_string_pretty(&value)? } '
+            'XvcSchemaSerializationFormat::Yaml => to_yaml(&pipeline_schema)?, }; match file { Some(path) => fs::write(path, export_output).map_err(|e| e.into()), '
+            'None => { output!(output_snd, "{}", export_output); Ok(()) } }')
+    if not tail.startswith(want):
+        i = next((k for k, (x, y) in enumerate(zip(tail, want)) if x != y), min(len(tail), len(want)))
+        raise ReaderTieBroken(f'{EXPORT_RS}: the code that writes the document is not the one ExportFile.lean transcribes; differs at: {tail[i:i + 160]!r}')
+    for bad in ('OpenOptions', 'BufWriter', 'to_writer'):
+        if bad in code:
+            raise ReaderTieBroken(f'{EXPORT_RS}: uses {bad}, which the model of the export file does not know')
+    return {'write': 'fs::write', 'read': {f'{EXPORT_RS}:let export_output': src[:src.find('let export_output')].count('\n') + 1}}
+
+
 def to_stream(data: bytes):
     """bytes -> the `pipedata reader` stream encoding (code points, X for a byte outside every well-formed sequence)"""
     s = data.decode('utf-8', 'surrogateescape')
